@@ -85,6 +85,10 @@ CHECKS = {
                         "runs above 200000 VM instructions are discarded and counted"],
     },
     "C13": {
+        # every run of a case is bounded by the step limit; a case that deterministically
+        # never returns when replayed alone (a Compile blocked by what an earlier call
+        # left behind) is a dependence between calls
+        "hang_is_violation": True,
         "parts": [
             {"test": "TestC13", "quick": 4000, "thorough": 50000, "shards": 16, "quick_shards": 2},
             {"test": "TestC13History", "quick": 800, "thorough": 2000, "shards": 16, "quick_shards": 2},
@@ -130,6 +134,7 @@ CHECKS = {
     "C06": {
         "parts": [
             {"test": "TestC06", "quick": 2500, "thorough": 20000, "shards": 16, "quick_shards": 2},
+            {"test": "TestC06Seq", "quick": 1500, "thorough": 10000, "shards": 16, "quick_shards": 2},
             {"test": "TestC06Big", "rapid": False, "quick": 0, "thorough": 0, "shards": 9, "quick_shards": 4},
         ],
         "assumptions": ["generated files up to 20000 bytes, the enumerated big files 64 KiB .. 1 MiB; bodies without unbounded greedy loops (cost of the VM is quadratic in the run length); local filesystem"],
